@@ -314,6 +314,15 @@ where
             TensorData::new(momentum_data, [n_chains, dim]),
             &B::Device::default(),
         );
+        #[cfg(feature = "verif-hooks")]
+        {
+            crate::verif_hooks::push(|| {
+                format!("hmc pos {}", crate::verif_hooks::tensor_hex(&self.positions))
+            });
+            crate::verif_hooks::push(|| {
+                format!("hmc momentum {}", crate::verif_hooks::tensor_hex(&momentum_0))
+            });
+        }
 
         // Current log probability: shape [n_chains]
         // Detach pos to ensure it's AD-enabled for the gradient computation.
@@ -326,6 +335,13 @@ where
         let grad_summands =
             Tensor::<B, 2>::from_inner(grads.mul_scalar(self.step_size * T::from(0.5).unwrap()));
         self.last_grad_summands = grad_summands;
+        #[cfg(feature = "verif-hooks")]
+        crate::verif_hooks::push(|| {
+            format!(
+                "hmc logp_current {}",
+                crate::verif_hooks::tensor_hex(&logp_current)
+            )
+        });
 
         // Compute kinetic energy: 0.5 * sum_{d} (p^2) for each chain.
         let ke_current = momentum_0
@@ -341,6 +357,27 @@ where
         // 2) Run the leapfrog integrator.
         let (proposed_positions, proposed_momenta, logp_proposed) =
             self.leapfrog(self.positions.clone(), momentum_0);
+        #[cfg(feature = "verif-hooks")]
+        {
+            crate::verif_hooks::push(|| {
+                format!(
+                    "hmc proposed_pos {}",
+                    crate::verif_hooks::tensor_hex(&proposed_positions)
+                )
+            });
+            crate::verif_hooks::push(|| {
+                format!(
+                    "hmc proposed_mom {}",
+                    crate::verif_hooks::tensor_hex(&proposed_momenta)
+                )
+            });
+            crate::verif_hooks::push(|| {
+                format!(
+                    "hmc logp_proposed {}",
+                    crate::verif_hooks::tensor_hex(&logp_proposed)
+                )
+            });
+        }
 
         // Compute proposed kinetic energy.
         let ke_proposed = proposed_momenta
@@ -363,10 +400,25 @@ where
             TensorData::new(uniform_data, [n_chains]),
             &B::Device::default(),
         );
+        #[cfg(feature = "verif-hooks")]
+        crate::verif_hooks::push(|| {
+            format!("hmc uniform {}", crate::verif_hooks::tensor_hex(&uniform))
+        });
 
         // Accept the proposal if accept_logp >= ln(u).
         let ln_u = uniform.log(); // shape [n_chains]
         let accept_mask = accept_logp.greater_equal(ln_u); // Boolean mask of shape [n_chains]
+        #[cfg(feature = "verif-hooks")]
+        crate::verif_hooks::push(|| {
+            let m: Vec<bool> = accept_mask.to_data().convert::<bool>().to_vec().unwrap();
+            format!(
+                "hmc accept {}",
+                m.iter()
+                    .map(|b| if *b { "1" } else { "0" })
+                    .collect::<Vec<_>>()
+                    .join(",")
+            )
+        });
         let mut accept_mask_big: Tensor<B, 2, Bool> = accept_mask.clone().unsqueeze_dim(1);
         accept_mask_big = accept_mask_big.expand([n_chains, dim]);
 
@@ -430,6 +482,37 @@ where
         // Compute final log probability at the updated positions.
         let logp_final = self.target.unnorm_logp_batch(pos.clone());
         (pos.detach(), mom.detach(), logp_final.detach())
+    }
+}
+
+/// Verification-only access to the private integrator.
+#[cfg(feature = "verif-hooks")]
+impl<T, B, GTarget> HMC<T, B, GTarget>
+where
+    T: Float
+        + burn::tensor::ElementConversion
+        + burn::tensor::Element
+        + rand_distr::uniform::SampleUniform
+        + num_traits::FromPrimitive,
+    B: AutodiffBackend,
+    GTarget: BatchedGradientTarget<T, B> + std::marker::Sync,
+    StandardNormal: rand::distr::Distribution<T>,
+    StandardUniform: rand_distr::Distribution<T>,
+{
+    /// Prepares the carried gradient summand at `pos` exactly as `step` does and then calls the
+    /// private `leapfrog`; returns `(positions, momenta, logp)` after `n_leapfrog` steps.
+    #[allow(clippy::type_complexity)]
+    pub fn verif_leapfrog(
+        &mut self,
+        pos: Tensor<B, 2>,
+        mom: Tensor<B, 2>,
+    ) -> (Tensor<B, 2>, Tensor<B, 2>, Tensor<B, 1>) {
+        let p = pos.clone().detach().require_grad();
+        let logp = self.target.unnorm_logp_batch(p.clone());
+        let grads = p.grad(&logp.backward()).unwrap();
+        self.last_grad_summands =
+            Tensor::<B, 2>::from_inner(grads.mul_scalar(self.step_size * T::from(0.5).unwrap()));
+        self.leapfrog(pos, mom)
     }
 }
 
